@@ -751,7 +751,7 @@ var engines = []string{"scorch-mem", "scorch-disk", "upsidedown", "scorch-mem", 
 func gen(f vh.Flags, r *vrand.R, emit func(In)) {
 	thorough := f.Tier == "thorough"
 	// 1. random trees to depth 4 over random corpora
-	nCorpora := f.N(60, 3000)
+	nCorpora := f.N(60, 2400)
 	for ci := 0; ci < nCorpora; ci++ {
 		engine := engines[ci%len(engines)]
 		nDocs := r.Range(5, 12)
@@ -947,8 +947,8 @@ func gen(f vh.Flags, r *vrand.R, emit func(In)) {
 	// 3. thorough: every query tree of depth <= 2 over 3 leaves (nodes with at most 2 children,
 	// at most one of them compound) on a few small corpora
 	if thorough {
-		for ci := 0; ci < 3; ci++ {
-			engine := engines[ci]
+		for ci := 0; ci < 2; ci++ {
+			engine := []string{"scorch-mem", "upsidedown"}[ci]
 			w := newWorld(r.Fork(), engine, 6)
 			w.vocab = []string{"a", "b", "c"}
 			var docs [][]Op
@@ -1277,7 +1277,10 @@ func run(in In) vh.Result {
 		}
 	}
 
-	tr := in.Engine != "upsidedown"
+	tr := cf.T("scorch_metric")
+	if in.Engine == "upsidedown" {
+		tr = "upsidedown_metric"
+	}
 	class := ""
 	if in.Q.any(minShouldNode) {
 		class = "minshould-score-none"
@@ -1321,7 +1324,7 @@ func run(in In) vh.Result {
 		return false
 	})
 	return vh.Result{
-		Term:       cf.App("Case", cf.Bool(tr), corpus, in.Q.coq(), cf.List(obs)),
+		Term:       cf.App("Case", tr, corpus, in.Q.coq(), cf.List(obs)),
 		Nontrivial: first > 0 && first < len(nums),
 		Class:      class,
 		Hist:       hist,
